@@ -22,14 +22,11 @@ func decodeCase(k lib.Kind, s string, nilRecv bool) Case {
 	return c
 }
 
-// decodeCaseMode records the receiver mode (lib.RecvFresh / RecvNil / RecvQueried).
+// decodeCaseMode records the receiver mode (lib.Recv*).
 func decodeCaseMode(k lib.Kind, s string, mode int) Case {
 	c := decodeCase(k, s, mode == lib.RecvNil)
-	if mode == lib.RecvQueried {
-		c.Args = map[string]string{"receiver": "constructor result queried before Decode"}
-	}
-	if mode == lib.RecvCopy {
-		c.Args = map[string]string{"receiver": "by-value copy of a constructor result"}
+	if mode != lib.RecvFresh && mode != lib.RecvNil {
+		c.Args = map[string]string{"receiver": lib.ModeNames[mode]}
 	}
 	return c
 }
@@ -39,13 +36,7 @@ func caseMode(c Case) int {
 	if c.NilRcv {
 		return lib.RecvNil
 	}
-	if strings.HasPrefix(c.Args["receiver"], "by-value") {
-		return lib.RecvCopy
-	}
-	if c.Args["receiver"] != "" {
-		return lib.RecvQueried
-	}
-	return lib.RecvFresh
+	return lib.ModeByName(c.Args["receiver"])
 }
 
 func kindByName(n string) lib.Kind {
@@ -267,6 +258,7 @@ func runC01(r *Run) int {
 	if r.Counter("valid_vector_not_decoded") > 0 || r.Counter("score_panicked") > 0 {
 		r.Inconclusive("%d valid vectors were not decoded / %d queries panicked: scores unobservable there (C07/C12 judge that)", r.Counter("valid_vector_not_decoded"), r.Counter("score_panicked"))
 	}
+	r.ProcsChildren(1<<30, 1, 3, 7, 14)
 	return r.Finish("all 2x2,592 (version, base combination) vectors, each decoded by the base, temporal and environmental decoder in canonical order and in seeded random token orders with random optional metrics (spelled or omitted), plus a directly built Base struct and objects decoded from another vector whose exported fields were then overwritten, plus all 8! token orders of seed vectors; oracle = exact big.Rat FIRST equations with exact ceiling; distinct non-trivial = distinct (version, combination) with non-zero expected score",
 		true, nontrivial.Load(), 2*nBase3*4, 4000, TrustedBase)
 }
@@ -359,6 +351,7 @@ func runC02(r *Run) int {
 	if r.Counter("valid_vector_not_decoded") > 0 || r.Counter("score_panicked") > 0 {
 		r.Inconclusive("%d valid vectors were not decoded / %d queries panicked", r.Counter("valid_vector_not_decoded"), r.Counter("score_panicked"))
 	}
+	r.ProcsChildren(1<<30, 1, 3, 7, 14)
 	return r.Finish("all 518,400 (version, base, E, RL, RC) vectors through the temporal decoder (every X seed-determined spelled or omitted, a third in random token order) and "+
 		map[bool]string{true: "all", false: "a quarter"}[envFrac == 1]+" of them through the environmental decoder's TemporalMetrics() (half with random environmental metrics added), and every one as a directly built Temporal struct; oracle = exact integer ceil of rounded-base x weights; distinct non-trivial = vectors whose expected temporal score differs from the base score",
 		true, nontrivial.Load(), 518400, 100000, TrustedBase)
@@ -690,6 +683,7 @@ func runC03(r *Run) int {
 		rule += "300,000 of those through NewEnvironmental().Decode with random order/omission; (c) 20,000,000 seeded samples of the full version x base x environmental x temporal space on directly built objects"
 	}
 	rule += "; oracle = big.Rat table of the FIRST environmental equations, exact ceiling; distinct non-trivial = distinct (effective key, temporal combination) with non-zero expected score (bitmap)"
+	r.ProcsChildren(20000, 1, 3, 7, 14)
 	return r.Finish(rule, true, distinct.count(), nEff3*100, 1000000, TrustedBase)
 }
 
